@@ -128,8 +128,37 @@ func bytesToBig(bs []*Term) *Term {
 	if len(bs) == 0 {
 		return BVu(bigW, 0)
 	}
-	acc := bs[0]
-	for _, b := range bs[1:] {
+	// merge runs: adjacent extracts of one term, adjacent constants
+	var segs []*Term
+	for _, b := range bs {
+		if n := len(segs); n > 0 {
+			last := segs[n-1]
+			if last.exOf != nil && b.exOf != nil && last.exOf == b.exOf && last.exLo == b.exHi+1 {
+				segs[n-1] = Extract(last.exOf, last.exHi, b.exLo)
+				continue
+			}
+			if last.Const && b.Const {
+				segs[n-1] = Concat(last, b)
+				continue
+			}
+		}
+		segs = append(segs, b)
+	}
+	// zero padding in front of the low part of a term whose high part is known to be zero: the term itself
+	if len(segs) == 2 && segs[0].Const && segs[0].V.Sign() == 0 && segs[1].exOf != nil && segs[1].exLo == 0 {
+		base := segs[1].exOf
+		if base.topZeroFrom > 0 && base.topZeroFrom <= segs[1].W && segs[0].W+segs[1].W == base.W {
+			return ZExt(base, bigW)
+		}
+	}
+	if len(segs) == 1 && segs[0].exOf != nil && segs[0].exLo == 0 {
+		base := segs[0].exOf
+		if base.topZeroFrom > 0 && base.topZeroFrom <= segs[0].W && base.W <= bigW {
+			return ZExt(base, bigW)
+		}
+	}
+	acc := segs[0]
+	for _, b := range segs[1:] {
 		acc = Concat(acc, b)
 	}
 	return ZExt(acc, bigW)
@@ -144,6 +173,9 @@ func (in *Interp) bigBytes(t *Term) []*Term {
 	} else {
 		t = in.share(t)
 		max := bigW / 8
+		if orig.zextOf != nil {
+			max = (orig.zextOf.W + 7) / 8
+		}
 		conds := make([]*Term, max+1)
 		for L := 0; L <= max; L++ {
 			var lo, hi *Term
@@ -160,6 +192,13 @@ func (in *Interp) bigBytes(t *Term) []*Term {
 			conds[L] = And(lo, hi)
 		}
 		n = in.decide(conds)
+	}
+	base := orig
+	if orig.zextOf != nil {
+		base = orig.zextOf
+	}
+	if 8*n < base.W {
+		base.topZeroFrom = 8 * n
 	}
 	out := make([]*Term, n)
 	for i := 0; i < n; i++ {
@@ -180,9 +219,9 @@ func (in *Interp) freshBig(hint string, bits int) *Term {
 	if bits < w {
 		in.assert(ULt(raw, BV(w, new(big.Int).Lsh(bigOne, uint(bits)))))
 	}
-	if !in.fullRange {
-		// typical values: no leading zero byte at the field width (the full range is explored by C15/C16)
-		in.assert(Not(Eq(Extract(raw, w-1, w-8), BVu(8, 0))))
+	// by default no leading zero byte at the field width (as for almost every real key); C15/C16 widen this
+	if k := in.maxLZ + 1; 8*k <= w {
+		in.assert(Not(Eq(Extract(raw, w-1, w-8*k), BVu(8*k, 0))))
 	}
 	return ZExt(raw, bigW)
 }
@@ -216,6 +255,23 @@ func init() {
 		}
 		return &Slice{Data: data}, true
 	})
+	reg(bigp+"FillBytes", func(in *Interp, fn *ssa.Function, args []value) (value, bool) {
+		t := in.bigOf(args[0])
+		buf := args[1].(*Slice)
+		n := len(buf.Data)
+		if 8*n < bigW {
+			in.panicIf(Not(ULt(t, BV(bigW, new(big.Int).Lsh(bigOne, uint(8*n))))), "math/big: buffer too small to fit value")
+		}
+		for i := 0; i < n; i++ {
+			hi := 8*(n-i) - 1
+			if hi >= bigW {
+				in.store(&buf.Data[i], BVu(8, 0))
+			} else {
+				in.store(&buf.Data[i], Extract(t, hi, hi-7))
+			}
+		}
+		return buf, true
+	})
 	reg(bigp+"BitLen", func(in *Interp, fn *ssa.Function, args []value) (value, bool) {
 		t := in.bigOf(args[0])
 		if t.Const {
@@ -246,16 +302,22 @@ func init() {
 		})
 	}
 	reg("(*crypto/elliptic.CurveParams).Params", func(in *Interp, fn *ssa.Function, args []value) (value, bool) { return args[0], true })
-	reg("(*github.com/btcsuite/btcd/btcec/v2.KoblitzCurve).Params", func(in *Interp, fn *ssa.Function, args []value) (value, bool) {
-		p := args[0].(*value)
-		return (*p).(Struct)[0], true
-	})
+	for _, kp := range []string{"github.com/btcsuite/btcd/btcec/v2", "github.com/decred/dcrd/dcrec/secp256k1/v4"} {
+		reg("(*"+kp+".KoblitzCurve).Params", func(in *Interp, fn *ssa.Function, args []value) (value, bool) {
+			p := args[0].(*value)
+			return (*p).(Struct)[0], true
+		})
+	}
 	onc := func(in *Interp, fn *ssa.Function, args []value) (value, bool) {
 		ci := in.curveOf(args[0])
 		return in.onCurve(ci, in.bigOf(args[1]), in.bigOf(args[2])), true
 	}
 	reg("(*crypto/elliptic.CurveParams).IsOnCurve", onc)
 	reg("(*github.com/btcsuite/btcd/btcec/v2.KoblitzCurve).IsOnCurve", onc)
+	reg("(*github.com/decred/dcrd/dcrec/secp256k1/v4.KoblitzCurve).IsOnCurve", onc)
+	reg("github.com/decred/dcrd/dcrec/secp256k1/v4.S256", func(in *Interp, fn *ssa.Function, args []value) (value, bool) {
+		return in.curveIface(curves["secp256k1"]).V, true
+	})
 
 	// ---- ECDSA ----
 	reg("crypto/ecdsa.GenerateKey", func(in *Interp, fn *ssa.Function, args []value) (value, bool) {
